@@ -165,8 +165,14 @@ class Ctx:
         e.pop('HAIL_VERIF', None)
         if env:
             e.update(env)
-        p = subprocess.run([python, '-u', path], input=json.dumps(payload), capture_output=True, text=True,
-                           timeout=timeout, env=e, cwd=self.work)
+        def limit():      # a changed implementation may loop or allocate without bound: fail (tie broken), do not take the box down
+            import resource
+            resource.setrlimit(resource.RLIMIT_AS, (12 << 30, 12 << 30))
+        try:
+            p = subprocess.run([python, '-u', path], input=json.dumps(payload), capture_output=True, text=True,
+                               timeout=timeout, env=e, cwd=self.work, preexec_fn=limit)
+        except subprocess.TimeoutExpired:
+            raise ImplCrash(script, -9, f'timeout after {timeout}s')
         if p.returncode != 0:
             raise ImplCrash(script, p.returncode, p.stderr[-4000:])
         try:
